@@ -416,6 +416,21 @@ class SQLDataHolder(DataHolder):
             session.execute(stmt_2)
             session.commit()
 
+    def remove_orphaned_node_associations(self) -> None:
+        """Method to remove parent-child associations whose child span is no
+        longer in the store, so that the span can be ingested again later.
+        """
+        with self.session as session:
+            stmt = sa.delete(NODE_ASSOCIATION).where(
+                not_(
+                    NODE_ASSOCIATION.c.child_id.in_(
+                        sa.select(NodeModel.event_id)
+                    )
+                )
+            )
+            session.execute(stmt)
+            session.commit()
+
     def remove_inconsistent_jobs(self) -> None:
         """Method to remove spans associated with job ids that contain
         disconnected spans.
@@ -451,6 +466,7 @@ class SQLDataHolder(DataHolder):
             logging.getLogger().info(
                 f"Number of nodes with inconsistent jobs: {res.rowcount}"
             )
+        self.remove_orphaned_node_associations()
 
     def remove_jobs_outside_of_time_window(self) -> None:
         """Remove jobs within the buffer."""
@@ -481,6 +497,7 @@ class SQLDataHolder(DataHolder):
             logging.getLogger().info(
                 f"Number of events outside of time window: {res.rowcount}"
             )
+        self.remove_orphaned_node_associations()
 
 
 def intialise_temp_table_for_root_nodes(
